@@ -573,6 +573,12 @@ func (mq *MessageQueue) sendMessage() {
 		// Convert want lists to a Bitswap Message
 		message, onSent := mq.extractOutgoingMessage(supportsHave)
 		if message.Empty() {
+			// Everything that was put into the message may have been
+			// withdrawn while it was being built. Wants that did not fit
+			// into this message are still pending, so schedule another send.
+			if mq.pendingWorkCount() > 0 {
+				mq.signalWorkReady()
+			}
 			return
 		}
 
